@@ -67,12 +67,18 @@ def call(op: str, a: dict) -> dict:
                 # the kernel behind "all modes at once" against "one mode at a time", also for integer-typed factor
                 # matrices and a tensor with non-integer entries (the element-gradient tensor is such a tensor)
                 Yt = ttb.tensor(np.asarray(X.full().data if hasattr(X, "subs") else X.data, dtype=float) * 0.5 + 0.25)
+                Yi = ttb.tensor(np.round(np.asarray(Yt.data) * 4).astype(np.int64))     # the same with integer-typed entries
+                # (and for a list that mixes integer-typed matrices with one matrix of non-integer floats)
                 for Ui in ([np.asarray(u, dtype=float) for u in K.factor_matrices],
-                           [np.round(u).astype(np.int64) for u in K.factor_matrices]):
-                    allm = Yt.mttkrps(Ui)
-                    if not all(np.allclose(np.asarray(allm[n]), np.asarray(Yt.mttkrp(Ui, n)), rtol=1e-12, atol=1e-12)
-                               for n in range(len(Ui))):
-                        return {"st": "all-modes-at-once-differs-from-one-mode-at-a-time"}
+                           [np.round(u).astype(np.int64) for u in K.factor_matrices],
+                           [(np.asarray(u, dtype=float) * 0.5 + 0.3 + 0.17 * np.arange(u.shape[0])[:, None] - 0.07 * np.arange(u.shape[1])[None, :])
+                            if i == len(K.factor_matrices) // 2 else np.round(u).astype(np.int64)
+                            for i, u in enumerate(K.factor_matrices)]):
+                    for Y_ in (Yt, Yi):
+                        allm = Y_.mttkrps(Ui)
+                        if not all(np.allclose(np.asarray(allm[n]), np.asarray(Y_.mttkrp(Ui, n)), rtol=1e-12, atol=1e-12)
+                                   for n in range(len(Ui))):
+                            return {"st": "all-modes-at-once-differs-from-one-mode-at-a-time"}
                 if c05.snapshot(K) != snap[0] or c05.snapshot(X) != snap[1] or (W is not None and not np.array_equal(W, snap[2])):
                     return {"st": "model-data-or-weights-changed-by-the-evaluation"}
                 if F2 != F or not all(np.array_equal(p, q) for p, q in zip(G, G2)):
